@@ -378,9 +378,9 @@ Section DeinitProofs.
       rewrite String.eqb_refl. left. reflexivity.
   Qed.
 
-  Lemma final_deinit_ext T T' p tbl tbl' :
+  Lemma final_deinit_ext ea T T' p tbl tbl' :
     NoDup (map fst T) -> NoDup (map fst T') -> table_equiv T T' -> lequiv tbl tbl' ->
-    final_deinit T p tbl = final_deinit T' p tbl'.
+    final_deinit ea T p tbl = final_deinit ea T' p tbl'.
   Proof.
     intros ND ND' ET EL. unfold final_deinit.
     assert (ES : sort_by fst (phase_syms T p) = sort_by fst (phase_syms T' p)).
@@ -389,7 +389,8 @@ Section DeinitProofs.
       - intros [x k1] [y k2] H1 H2 E. cbn in E. subst y.
         apply phase_syms_In in H1. apply phase_syms_In in H2.
         apply (tfind_In T _ _ ND) in H1. apply (tfind_In T _ _ ND) in H2. congruence. }
-    rewrite ES. apply filter_ext. intros [x k]. cbn. rewrite (EL (x, p)). reflexivity.
+    rewrite ES. destruct ea; [reflexivity|].
+    apply filter_ext. intros [x k]. cbn. rewrite (EL (x, p)). reflexivity.
   Qed.
 End DeinitProofs.
 
@@ -416,8 +417,8 @@ Proof.
 Qed.
 
 Example final_deinit_example :
-  final_deinit wit_T "main" [(("a", "main"), "s")] = [("b", Some (KUser "y")); ("n", Some (KScalar true))] /\
-  final_deinit (rev wit_T) "main" [(("a", "main"), "s")] = [("b", Some (KUser "y")); ("n", Some (KScalar true))].
+  final_deinit false wit_T "main" [(("a", "main"), "s")] = [("b", Some (KUser "y")); ("n", Some (KScalar true))] /\
+  final_deinit false (rev wit_T) "main" [(("a", "main"), "s")] = [("b", Some (KUser "y")); ("n", Some (KScalar true))].
 Proof. split; vm_compute; reflexivity. Qed.
 
 (* ====================================================================== Part E: S5 *)
@@ -604,14 +605,14 @@ Section PipelineProofs.
   (* Fortran path, every C15 site in its sorted shape: everything computed before text is
      written is the same for two stored forms of one description, for all iteration orders of
      all sets involved, and for kind tables that agree as maps *)
-  Theorem pipeline_f_deterministic D D' ord1 ord1' ord2 ord2' ord3 ord3' T T' :
+  Theorem pipeline_f_deterministic ea D D' ord1 ord1' ord2 ord2' ord3 ord3' T T' :
     wf_description D -> same_description D D' ->
     reorders ord1 -> reorders ord1' -> reorders ord2 -> reorders ord2' ->
     reorders ord3 -> reorders ord3' ->
     NoDup (map fst T) -> NoDup (map fst T') -> table_equiv T T' ->
-    pipeline_f rev_expand guard_empty skip_false true true G gen ginit mid info is_state
+    pipeline_f rev_expand guard_empty skip_false true true ea G gen ginit mid info is_state
                ord1 ord2 ord3 T D =
-    pipeline_f rev_expand guard_empty skip_false true true G gen ginit mid info is_state
+    pipeline_f rev_expand guard_empty skip_false true true ea G gen ginit mid info is_state
                ord1' ord2' ord3' T' D'.
   Proof.
     intros WF SD R1 R1' R2 R2' R3 R3' ND ND' ET.
@@ -742,7 +743,7 @@ Definition wit_kinds : table :=
 Definition wit_is_state (x : string) : bool := String.prefix "<state>" x.
 
 Definition wit_run (sd de : bool) (ord : string -> string -> list string -> list string) D :=
-  pipeline_f true true true sd de pgen pg_gen pg_init (fun l => l) wit_info wit_is_state
+  pipeline_f true true true sd de false pgen pg_gen pg_init (fun l => l) wit_info wit_is_state
              ord ord ord wit_kinds D.
 
 (* non-vacuity: with the repaired shapes the two stored forms, under opposite iteration orders,
@@ -783,7 +784,7 @@ Proof. cbn. repeat constructor; cbn; intuition discriminate. Qed.
 Theorem full_statement_refuted_selfdep de pp pt gc : ~ full_statement false de pp pt gc.
 Proof.
   intros [H _].
-  specialize (H true true true pgen pg_gen pg_init (fun l => l) wit_info wit_is_state
+  specialize (H true true true false pgen pg_gen pg_init (fun l => l) wit_info wit_is_state
                 one_phase one_phase
                 (fun _ _ l => l) (fun _ _ l => rev l) (fun _ _ l => l) (fun _ _ l => l)
                 (fun _ _ l => l) (fun _ _ l => l) wit_kinds wit_kinds
@@ -797,7 +798,7 @@ Qed.
 Theorem full_statement_refuted_deinit sd pp pt gc : ~ full_statement sd false pp pt gc.
 Proof.
   intros [H _].
-  specialize (H true true true pgen pg_gen pg_init (fun l => l) wit_info wit_is_state
+  specialize (H true true true false pgen pg_gen pg_init (fun l => l) wit_info wit_is_state
                 one_phase one_phase
                 (fun _ _ l => l) (fun _ _ l => l) (fun _ _ l => l) (fun _ _ l => l)
                 (fun _ _ l => l) (fun _ _ l => rev l) wit_kinds wit_kinds
